@@ -504,7 +504,7 @@ func c01skip(c *core.Ctx, r *core.Reporter) {
 // c01fresh shares the implementation of C08.nostate for the core forms.
 func c01fresh(c *core.Ctx, r *core.Reporter) {
 	const rule = "C01.fresh"
-	r.Rule(rule, "the Call method of each core form stores nothing into its own function object: in particular every evaluation of a lambda expression builds a new closure object", 25)
+	r.Rule(rule, "the Call method of each core form (with the closures it creates and the methods it calls on itself) stores nothing into its own function object: in particular every evaluation of a lambda expression builds a new closure object", 25)
 	for _, name := range coreForms {
 		b := c.ByName("pkg/cl", name)
 		if b == nil || b.Call == nil {
@@ -514,24 +514,7 @@ func c01fresh(c *core.Ctx, r *core.Reporter) {
 		if fn == nil || len(fn.Params) == 0 {
 			continue
 		}
-		recv := fn.Params[0]
-		var bad []string
-		var scan func(f *ssa.Function)
-		scan = func(f *ssa.Function) {
-			for _, bb := range f.Blocks {
-				for _, in := range bb.Instrs {
-					if st, ok := in.(*ssa.Store); ok {
-						if fa, ok := st.Addr.(*ssa.FieldAddr); ok && rootedAt(fa.X, recv, 0) {
-							bad = append(bad, fieldName(fa))
-						}
-					}
-				}
-			}
-			for _, af := range f.AnonFuncs {
-				scan(af)
-			}
-		}
-		scan(fn)
+		bad, _ := selfStores(fn)
 		r.Decide(len(bad) == 0, rule, "pkg/cl:"+name, c.Pos(fn.Pos()), fmt.Sprintf("fields of the function object written during Call: %v", bad))
 	}
 }
